@@ -175,6 +175,8 @@ def _dtype_of(ctx, chain, depth, mname, kind, uns, prec):
 
 
 def r1_type_ladders(ctx):
+    from . import C13 as _C13
+    _C13.r6_scalar_literals(ctx)    # the typed value carries width and sign on every branch of every setter, also after a modification (shared with C13.R6)
     cells = _domain(ctx)
     n = 0
     for lang, f, cname in BACKENDS:
@@ -571,8 +573,39 @@ def _text_on_every_path(ctx):
     ctx.floor("back-ends that keep the exported text", n, 5)
 
 
+def _save_truncates(ctx):
+    """save(path) writes the export of the current selection into the file: the file is opened so that earlier content
+    is replaced ('w'/'x'); appending or updating in place leaves a previous export in front of the new one."""
+    rel, q = CF + "export.py", "ExportConfig.save"
+    fn = ctx.fn(rel, q)
+    what = "save() replaces the content of the file (it does not append to an earlier export)"
+    opens = [c for c in ast.walk(fn) if isinstance(c, ast.Call) and dotted_name(c.func) in ("open", "io.open")]
+    if len(opens) != 1:
+        ctx.form(False, rel, q, what, detail=[norm(c) for c in opens])
+        return
+    c = opens[0]
+    mode = c.args[1] if len(c.args) >= 2 else next((k.value for k in c.keywords if k.arg == "mode"), None)
+    lit = None
+    if isinstance(mode, ast.Constant):
+        lit = mode.value
+    elif isinstance(mode, ast.Name):
+        names = [a.arg for a in fn.args.args]
+        defs = dict(zip(names[len(names) - len(fn.args.defaults):], fn.args.defaults))
+        d = defs.get(mode.id)
+        lit = d.value if isinstance(d, ast.Constant) else None
+    if not isinstance(lit, str):
+        ctx.form(False, rel, q, what, detail=norm(c))
+    elif lit.startswith(("w", "x")):
+        ctx.holds(rel, q, what)
+    elif lit.startswith(("a", "r")):
+        ctx.violated(rel, q, what, detail=f"default mode {lit!r}", expected="'w'")
+    else:
+        ctx.form(False, rel, q, what, detail=lit)
+
+
 def _selection(ctx, sel):
     _text_on_every_path(ctx)
+    _save_truncates(ctx)
     """select(query, tags): the exported set becomes env.data(dtype, query=query, tags=tags) - both filters handed on."""
     from ..flowexpr import paths as _paths
     rel, q = CF + "export.py", "ExportConfig.select"
